@@ -133,3 +133,62 @@ class C01(NlpCheck):
                     self.violation("ocp.discrete_system() differs from M steps of the scheme: model %s impl %s" % (float(a), float(v)),
                                    {"desc": desc, "args": args}, {"kind": "discrete_system", "intg": 'next' if desc.get('next') else desc['method']['intg']})
                     return
+
+
+ALLM = [('ms', 'rk'), ('ms', 'euler'), ('ss', 'rk'), ('dc', 'rk'), ('ms', 'next'), ('dc', 'rk')]
+
+
+@register
+class C04(NlpCheck):
+    pid = "C04"
+    slices = ["constraint-rows-all-methods", "offsets", "unplaceable-rejected"]
+    tags = ("user", "tpos")
+    whole = True
+    profiles = [
+        ("constraint-rows-all-methods",
+         {'methods': ALLM, 'grids': FIXED_GRIDS + ['free', 'uniform_locT'], 'horizon': ['num', 'freeT', 'param'],
+          'obj_kinds': ['at_tf'], 'ncons': (1, 4), 'scale_prob': 0.3, 'offset_prob': 0.0,
+          'Ns': [1, 2, 2, 3, 3, 4], 'Ms': [1, 1, 2, 3], 'degrees': [1, 2, 3]}, 40, 500),
+        ("offsets",
+         {'methods': ALLM, 'grids': ['uniform', 'geometric'], 'horizon': ['num'],
+          'obj_kinds': ['at_tf'], 'ncons': (1, 3), 'scale_prob': 0.2, 'offset_prob': 0.8, 'con_grids': ['control'], 'roots': False,
+          'Ns': [1, 2, 3, 3, 4, 5], 'Ms': [1, 2], 'degrees': [1, 2]}, 30, 400),
+    ]
+
+    def explanation(self):
+        return ("theorems: control-grid placement loop (with the IndexError drop rule) = nodes 0..N filtered by include flags and "
+                "in-horizon offsets, each once; integrator/roots membership and counts; final-node and shifted environments; "
+                "sense/bounds preserved under positive scaling; point constraints once; every NLP row classified. "
+                "correspondence: EQUALITY of the whole atom multiset of rockit's g/lbg/ubg with the model's, all methods.")
+
+    def case_features(self, desc, kind, detail):
+        f = NlpCheck.case_features(self, desc, kind, detail)
+        if kind == 'rows-missing':
+            tags = sorted(set(t for t, _ in detail))
+            f['final_node_offset'] = any(t.endswith('node -1') for t in tags) and any(c.get('offs') for c in desc['cons'])
+        return f
+
+    def correspondence(self):
+        NlpCheck.correspondence(self)
+        self.unplaceable_slice()
+
+    def unplaceable_slice(self):
+        """a constraint on a grid the method cannot place must be rejected, not ignored"""
+        n = 4 if self.tier == 'quick' else 30
+        for _ in range(n):
+            prof = {'methods': [('ms', 'rk'), ('ss', 'rk'), ('ms', 'euler')], 'grids': ['uniform'], 'ncons': (0, 0), 'obj_kinds': ['at_tf']}
+            desc = G.gen_case(self.rng, prof)
+            d0 = copy.deepcopy(desc)
+            desc['cons'] = [{'rel': 'le', 'a': [('x', 0)], 'b': [Mo.E.C(1)], 'grid': 'roots', 'first': True, 'last': True, 'offs': []}]
+            self.evaluations += 1
+            self.count("unplaceable:roots-under-shooting")
+            try:
+                b = B.build(desc)
+            except Exception:
+                continue   # rejected: fine
+            b0 = B.build(d0)
+            if b.opti.g.numel() == b0.opti.g.numel():
+                self.slice_ok["unplaceable-rejected"] = False
+                self.violation("subject_to(..., grid='integrator_roots') under %s is neither placed nor rejected (ng unchanged: %d)" % (desc['method']['kind'], b.opti.g.numel()),
+                               {"desc": desc}, {"kind": "unplaceable-ignored", "grid": "integrator_roots", "method": desc['method']['kind']})
+                return
